@@ -17,8 +17,11 @@
    f76dbc9).  If either regresses, the proofs of the `_repo` lemmas stop compiling.  The two
    `_refuted_for_...` theorems record what was wrong with the earlier shapes. *)
 From Coq Require Import List NArith Bool Arith.
+From SV Require Import model.Graph model.GraphInv.
 From SV Require Import lib.Bytes lib.SqlExpr gen.GenSched model.Sched proofs.SchedProofs proofs.SchedPrims
   proofs.SchedSeq proofs.SchedTermination.
+From SV Require Import model.SchedGraph proofs.SchedGraphCpl proofs.SchedGraphBelow
+  proofs.SchedGraphSim proofs.SchedGraphErase proofs.SchedGraphAcyclic proofs.SchedGraphMachine proofs.SchedGraphRefl.
 Import ListNotations.
 Open Scope N_scope.
 
@@ -359,6 +362,108 @@ Proof. exact prims_preserve_FlagInv. Qed.
 Theorem C10_primitive_sequences_preserve_FlagInv_decidable :
   forall l g g', WF g -> FlagInv g -> run_ok_b g l = true -> run_prims g l = Some g' -> WF g' /\ FlagInv g'.
 Proof. exact prims_preserve_FlagInv_b. Qed.
+
+(* ---- the transactions of the stored workflow (property C09's model) keep the flag invariant ---- *)
+
+(* Reading guide.  `step_op o s` is one transaction of model/Graph.v (C09) from the stored workflow s.
+   `prims_of_op idf a s o` (model/SchedGraph.v) is the sequence of Sched primitives -- row writes with
+   their triggers -- that the transaction performs, for a naming idf of (kind,label) keys by node ids.
+   `coupled idf s g`: the scheduling snapshot g has exactly the structural columns of s (cached columns
+   and flags are unconstrained).  `J s` = C09's invariant without the holding clause (inv_core_b, which
+   every operation preserves from any state) + no static-tree node + acyclic creator links. *)
+
+(* forgetting the emitted primitives gives back the transaction model *)
+Theorem C10_projection_erases_to_transaction_model :
+  forall idf a o s, erase (step_op_t idf a o s) = step_op o s.
+Proof. exact step_op_erase. Qed.
+
+(* the recursive products of a node are the same set in both models *)
+Theorem C10_below_is_rec_products :
+  forall idf, (forall a b, idf a = idf b -> a = b) ->
+  forall s g, coupled idf s g -> GraphNodes.NWl (nodes s) ->
+    GraphInvP.RWl (nodes s) (files s) (steps s) (shash s) (envs s) ->
+    forall k y, mem_N (idf y) (below g (idf k)) = mem_key y (rec_products k s).
+Proof. exact below_cpl_key. Qed.
+
+(* the acyclicity hypotheses of C10_update_meta_correct follow from C09's invariant *)
+Theorem C10_acyclic_from_invariant :
+  forall idf, (forall a b, idf a = idf b -> a = b) ->
+  forall s g, J s -> coupled idf s g -> WF g /\ Acyclic g /\ HasHashInv g.
+Proof.
+  intros idf Hinj s g HJ C. split; [apply (J_WF idf Hinj s g HJ C)|].
+  split; [apply (acyclic_cpl idf Hinj s g HJ C) | apply (HasHashInv_cpl idf s g C)].
+Qed.
+
+Theorem C10_invariant_decidable :
+  forall s, inv_core_b s && ntc_b s = true -> J s.
+Proof. exact J_b_sound. Qed.
+Theorem C10_coupling_decidable :
+  forall idf s g, coupled_b idf s g = true -> coupled idf s g.
+Proof. exact coupled_b_sound. Qed.
+
+(* C10_graph_ops_preserve_FlagInv, full statement: EVERY transaction of the alphabet, projected, keeps
+   the flag invariant (all side conditions of the primitives discharged from C09's invariant). *)
+Definition C10_graph_ops_preserve_FlagInv_full : Prop :=
+  forall idf, (forall a b, idf a = idf b -> a = b) ->
+  forall a o s g s', J s -> coupled idf s g -> FlagInv g -> step_op o s = Ok s' ->
+    exists g', run_prims g (prims_of_op idf a s o) = Some g' /\ run_ok g (prims_of_op idf a s o) /\
+               coupled idf s' g' /\ WF g' /\ FlagInv g' /\ J s'.
+
+(* Proved for the ten operations that neither create nor delete nodes: update_file_hashes, dispatch,
+   reset_for_rerun, exec_end (two update_file_hashes + mark_completed, with the defer branch and
+   _detach_created_steps), reset_to_pending, validate, mark_step_pending, hold, release,
+   reset_interrupted.  NOT proved here (their projection is validated on every real transaction by the
+   correspondence, and certified per transaction in C10_cached_equals_spec_at_every_decision_partial):
+   declare_static_files, define_step (new / partial recycle / full recycle), amend_step,
+   delete_detached. *)
+Theorem C10_graph_ops_preserve_FlagInv_partial :
+  forall idf, (forall a b, idf a = idf b -> a = b) ->
+  forall a o s g s', node_preserving o = true ->
+    J s -> coupled idf s g -> FlagInv g -> step_op o s = Ok s' ->
+    exists g', run_prims g (prims_of_op idf a s o) = Some g' /\ run_ok g (prims_of_op idf a s o) /\
+               coupled idf s' g' /\ WF g' /\ FlagInv g' /\ J s'.
+Proof.
+  intros idf Hinj a o s g s' Hp HJ C HF E.
+  destruct (step_op_t_ok idf a o s s' E) as [l El].
+  unfold prims_of_op. rewrite El. cbn [trace_of].
+  destruct (sim_FlagInv idf Hinj s _ _ s' l g (step_op_t_sim_preserving idf Hinj a o s HJ Hp) El HJ C HF)
+    as [HJ' [g' [Er [C' [O [Hwf HF']]]]]].
+  exists g'. split; [exact Er|]. split; [exact O|]. split; [exact C'|]. split; [exact Hwf|]. split; [exact HF' | exact HJ'].
+Qed.
+
+(* the start of every history: a fresh database *)
+Theorem C10_initial_state :
+  forall idf cap targets tdirs avail thr,
+    minv idf (init_st cap) (init_graph idf targets tdirs avail thr).
+Proof. intros. apply init_minv. Qed.
+
+(* C10_cached_equals_spec_at_every_decision.  `reach idf s g`: the combined state (stored workflow s,
+   scheduling snapshot g) is reached from a state satisfying the invariant (e.g. the fresh database) by
+   any interleaving of
+     - transactions that neither create nor delete nodes (any arguments; rejected or crashed ones are
+       rolled back and change nothing),
+     - declaring / deleting transactions whose projection is CERTIFIED: the primitive sequence satisfies
+       its side conditions, lands on a snapshot coupled to the new state, and the new state satisfies J
+       (three decidable conditions -- run_ok_b, coupled_b, inv_core_b && ntc_b -- that the correspondence
+       evaluates on every real transaction),
+     - the metadata updates of pop_next_job.
+   At every such state the three updates terminate, afterwards EVERY cached attribute of EVERY step
+   equals its definition and no flag is left, and the dispatch query returns exactly the eligible
+   steps.  Partial: without the certificates the statement is C10_graph_ops_preserve_FlagInv_full. *)
+Theorem C10_cached_equals_spec_at_every_decision_partial :
+  forall idf, (forall a b, idf a = idf b -> a = b) ->
+  forall s g, reach idf s g ->
+    exists g', update_meta g = Some g' /\ AllCorrect g' /\
+      forall x, In x (dispatch_set g') <-> (In x (g_steps g') /\ eligible_spec g' x = true).
+Proof. exact cached_equals_spec_at_every_decision. Qed.
+
+(* the combined machine is never stuck on a transaction of the proven class: whatever the transaction
+   model does, the projected sequence is defined on the coupled snapshot *)
+Theorem C10_projection_defined :
+  forall idf, (forall a b, idf a = idf b -> a = b) ->
+  forall a o s g s', reach idf s g -> node_preserving o = true -> step_op o s = Ok s' ->
+    exists l g', step_op_t idf a o s = Ok (s', l) /\ run_prims g l = Some g' /\ reach idf s' g'.
+Proof. exact reach_progress. Qed.
 
 (* Non-vacuity: the hypotheses are satisfiable by a graph with a chain plan -> c -> b, and the
    refutation witnesses are concrete. *)
